@@ -42,7 +42,7 @@ NAMES = ["a", "b", "foo", "bar_baz", "x1", "dataset_name", "K", "as_numpy", "lr"
 DOCS = ["the alpha thing", "dataset name", "learning rate used", "a thing", "some text here", "flag for verbosity", "batch count here",
         "Random seed", "", "number of seconds to wait before the request is abandoned and the caller is told about it in no uncertain terms at all, really",
         "percent of items kept"]
-MEMBERS = ["alpha", "beta", "gamma", "delta", "eps", "np", "tf", "a b"]
+MEMBERS = ["alpha", "beta", "gamma", "delta", "eps", "np", "tf", "a b", "stop or go", "list of x", "a, b", "int"]  # members that read like type prose ("or", "of", a comma, a type name) are ordinary strings
 INTS = [0, 1, 5, -3, 42, 100]
 FLOATS = [0.0, 0.5, 1.0, -2.5, 0.001, 3.14]
 STRS = ["", "mnist", "foo", "bar baz", "a_b", "~/data", "5", "''", "auto", "first batch", "it's", 'say "hi" twice']  # "''" (two quote characters) is the longest string set_value must leave alone
